@@ -11,7 +11,8 @@ Inductive gfun :=
 | F_subscriptions_refresh             (* self.subscriptions.refresh(ttl, addr, subscription, client_subscribed, client_unsubscribed) *)
 | F_send_nack                         (* self.announcer._send_subscribe_nack(subscription, addr) *)
 | F_queue_ack.                        (* self.announcer.queue_send(subscription.to_ack_entry(), remote=addr) *)
-Inductive gact := GCall (f : gfun) | GSoon (f : gfun).
+Inductive gact := GCall (f : gfun) | GSoon (f : gfun)
+| GStop.   (* a bare `return` inside a loop body: the remaining iterations are abandoned (the model has no such path) *)
 Definition gprep (g : gact) (p : list gact * bool) : list gact * bool := (cons g (fst p), snd p).
 
 (* what SimpleService.message_received answers: nothing, an error with a return code, the positive response *)
